@@ -23,6 +23,10 @@ package twig
 // (no extension, unknown extension, inline template)
 //@ func twig.(*autoEscapeVisitor).guessTypeFromName
 //@   ensures known: result == "txt" || result == "html" || (v.ext != nil && in(v.ext.Escapers, result))
+// plain text is never escaped: a name ending in .txt (or .txt.twig) has content type txt
+//@   ensures txt: hasSuffix(name, ".txt") ==> result == "txt"
+//@   ensures txttwig: hasSuffix(name, ".txt.twig") ==> result == "txt"
+//@   ensures noext: (forall i :: 0 <= i && i < len(name) ==> name[i] != '.') ==> result == "html"
 // C12: entering a module or a block escapes the print statements below it (not those of nested blocks, which are
 // entered on their own) for the content type of its defining template; a print statement's expression X becomes
 // escape(X, <content type>)
